@@ -142,6 +142,14 @@ EXPLANATION += c18_args.explanation(["get_args", "cmd"], "select_next_plate.get_
     "cast_dict_to_type, str_to_bool and the introspection functions are linked in Props/C18.v (their primitives are listed in C18's evidence).  "
     "Runtime: get_args() is run on generated command lines (kind cli_args): policy_cls is the class named, policy_params are typed by its annotations.  ")
 
+THEOREMS.update({
+    "C06_model_is_source_size_scorer_score": "the translation of the whole method SizeScorer.score ({k: plate.size for k, plate in plates.items()}; distance_matrix, samples, rng, progress_bar are not read) equals the model's size_scorer on every plates dict (distinct keys, as in any Python dict): the same plate ids in the same order, each with the number of rows of its plate",
+    "C06_model_is_source_size_scorer_score_general": "without the distinct-keys side condition: the comprehension is the left fold of dict_set over the entries",
+})
+EXPLANATION += ("  (4) SizeScorer.score is re-translated as a whole method (configuration L10B_SIZE_SCORER -> Generated/SrcScoring.v) and linked to "
+                "Scores.size_scorer; trusted: the translator (extended by dict comprehensions over d.items()) and the one primitive p.size = the number of rows of the "
+                "plate (a Plate where a ScreenSubset is expected is its rows in this vocabulary). ")
+
 logging.getLogger("batchie").setLevel(logging.ERROR)  # "No eligible plates remaining" warnings are not part of the check
 
 TNAMES = ["", "a", "b", "c"]
